@@ -1405,6 +1405,376 @@ fn run_tokens(a: &std::collections::HashMap<String, String>) {
     rep.print();
 }
 
+// ------------------------------------------------------------------ edits of objects read with recorded lengths (ObjectEdit.tla)
+
+const TAG_B: Tag = Tag(0x0008, 0x1115);
+const TAG_C: Tag = Tag(0x0028, 0x0010);
+const TAG_NEW: Tag = Tag(0x0028, 0x0011);
+
+fn u16s(v: &[u16]) -> PrimitiveValue {
+    PrimitiveValue::U16(v.iter().copied().collect())
+}
+
+/// nested update_value closures down to the object at `hops`, then `leaf` on it
+fn chain(obj: &mut InMemDicomObject, hops: &[(Tag, u32)], leaf: &mut dyn FnMut(&mut InMemDicomObject)) {
+    match hops.split_first() {
+        None => leaf(obj),
+        Some(((tag, item), rest)) => {
+            obj.update_value(*tag, |v| {
+                let items = v.items_mut().expect("sequence on the path");
+                chain(&mut items[*item as usize], rest, leaf);
+            });
+        }
+    }
+}
+
+fn apply_edit(obj: &mut InMemDicomObject, hops: &[(Tag, u32)], api: &str, edit: &str) -> Result<(), String> {
+    use dicom_core::ops::{ApplyOp, AttributeAction, AttributeOp, AttributeSelector, AttributeSelectorStep};
+    let sel = |extra: &[(Tag, u32)], leaf: Tag| {
+        let mut steps: Vec<AttributeSelectorStep> =
+            hops.iter().chain(extra.iter()).map(|(t, i)| AttributeSelectorStep::Nested { tag: *t, item: *i }).collect();
+        steps.push(AttributeSelectorStep::Tag(leaf));
+        AttributeSelector::new(steps).expect("selector")
+    };
+    match (api, edit) {
+        ("apply", "set-new") => obj.apply(AttributeOp::new(sel(&[], TAG_NEW), AttributeAction::Set(u16s(&[0x0304])))).map_err(|e| e.to_string()),
+        ("apply", "set-longer") => {
+            obj.apply(AttributeOp::new(sel(&[], TAG_C), AttributeAction::Set(u16s(&[0x0102, 0x0304])))).map_err(|e| e.to_string())
+        }
+        ("apply", "remove") => obj.apply(AttributeOp::new(sel(&[], TAG_C), AttributeAction::Remove)).map_err(|e| e.to_string()),
+        // the sequence (0008,1115) of every base object holds one item: item index 1 is the next one
+        ("apply", "add-item") => obj.apply(AttributeOp::new(sel(&[(TAG_B, 1)], TAG_C), AttributeAction::Set(u16s(&[0x0102])))).map_err(|e| e.to_string()),
+        ("apply", "truncate") => obj.apply(AttributeOp::new(sel(&[], TAG_B), AttributeAction::Truncate(0))).map_err(|e| e.to_string()),
+        ("at", "set-longer") => obj
+            .update_value_at(sel(&[], TAG_C), |v| *v = DValue::Primitive(u16s(&[0x0102, 0x0304])))
+            .map_err(|e| e.to_string()),
+        ("chain", _) => {
+            let mut leaf: Box<dyn FnMut(&mut InMemDicomObject)> = match edit {
+                "set-new" => Box::new(|o| {
+                    o.put(DataElement::new(TAG_NEW, VR::US, DValue::Primitive(u16s(&[0x0304]))));
+                }),
+                "set-longer" => Box::new(|o| {
+                    o.put(DataElement::new(TAG_C, VR::US, DValue::Primitive(u16s(&[0x0102, 0x0304]))));
+                }),
+                "remove" => Box::new(|o| {
+                    o.remove_element(TAG_C);
+                }),
+                "add-item" => Box::new(|o| {
+                    o.update_value(TAG_B, |v| {
+                        v.items_mut().expect("sequence").push(InMemDicomObject::from_element_iter([DataElement::new(
+                            TAG_C,
+                            VR::US,
+                            DValue::Primitive(u16s(&[0x0102])),
+                        )]));
+                    });
+                }),
+                "truncate" => Box::new(|o| {
+                    o.update_value(TAG_B, |v| v.truncate(0));
+                }),
+                e => panic!("bad edit {e}"),
+            };
+            chain(obj, hops, &mut *leaf);
+            Ok(())
+        }
+        (a, e) => panic!("bad api/edit {a}/{e}"),
+    }
+}
+
+fn run_edits(a: &std::collections::HashMap<String, String>) {
+    let cases = read_ndjson(a.get("cases").expect("--cases"));
+    let out = a.get("out").expect("--out");
+    std::fs::create_dir_all(out).unwrap();
+    let mut w = NdjsonWriter::create(&format!("{out}/estreams.ndjson"));
+    let mut rep = Report::new();
+    let (mut equal, mut drift, mut pred_invalid, mut rb_ok, mut rb_diff, mut rb_fail_invalid, mut rb_ok_invalid) = (0u64, 0u64, 0u64, 0u64, 0u64, 0u64, 0u64);
+    let mut drift_first = Value::Null;
+    let mut invalid_kinds: std::collections::BTreeMap<String, u64> = Default::default();
+    let mut rb_notes: Vec<Value> = Vec::new();
+    for c in &cases {
+        rep.cases += 1;
+        let ts = j_str(&c["ts"]);
+        let st = if j_str(&c["strat"]) == "U" { Strat::U } else { Strat::K };
+        let (api, edit) = (j_str(&c["api"]), j_str(&c["edit"]));
+        let hops: Vec<(Tag, u32)> =
+            j_arr(&c["hops"]).iter().map(|h| (tag_of(&h[0]), j_usize(&h[1]) as u32 - 1)).collect();
+        let valid = c["valid"].as_bool().unwrap();
+        let kind = format!("{api} {edit} at depth {} / strategy {}", hops.len(), st.name());
+        let mut obj = match read_obj(&j_bytes(&c["wire"]), ts) {
+            Ok(o) => o,
+            Err(e) => {
+                rep.mismatch(json!({"prop": "edit", "fp": format!("{ts}: reading the base stream fails"), "case": c, "error": e}));
+                continue;
+            }
+        };
+        match catch(|| apply_edit(&mut obj, &hops, api, edit)) {
+            Err(p) => {
+                rep.mismatch(json!({"prop": "edit", "fp": format!("edit panics ({kind})"), "case": c, "error": p}));
+                continue;
+            }
+            Ok(Err(e)) => {
+                rep.mismatch(json!({"prop": "edit", "fp": format!("edit fails ({kind})"), "case": c, "error": e}));
+                continue;
+            }
+            Ok(Ok(())) => {}
+        }
+        // the edited object itself must be what the model says (projection of the in-memory object)
+        let mem = project_obj(&obj);
+        if mem != c["rb"] {
+            rep.mismatch(json!({"prop": "edit", "fp": format!("edited object differs from the model ({kind})"), "case": c, "got": mem}));
+            continue;
+        }
+        match write_obj(&obj, ts, st) {
+            Err(e) => {
+                // a panic while writing is inside C01; an error is reported as an observation
+                let p = if e.starts_with("panic") { "C01" } else { "edit" };
+                rep.mismatch(json!({"prop": p, "fp": format!("{ts}: writing an edited object {} ({kind})", if e.starts_with("panic") { "panics" } else { "fails" }), "case": c, "error": e}));
+            }
+            Ok(bytes) => {
+                if !valid {
+                    pred_invalid += 1;
+                    *invalid_kinds.entry(kind.clone()).or_insert(0) += 1;
+                }
+                if bytes == j_bytes(&c["out"]) {
+                    equal += 1;
+                } else {
+                    drift += 1;
+                    if drift_first.is_null() {
+                        drift_first = json!({"kind": kind, "case": c, "got_bytes": bytes_json(&bytes)});
+                    }
+                    w.emit(&json!({"ev": "stream", "src": format!("edit/{kind}"), "ts": ts, "st": st.name(), "ds": c["after"], "bytes": bytes_json(&bytes)}));
+                }
+                match read_obj(&bytes, ts) {
+                    Ok(o2) => {
+                        let same = project_obj(&o2) == c["rb"];
+                        if valid {
+                            if same {
+                                rb_ok += 1
+                            } else {
+                                rb_diff += 1;
+                                if rb_notes.len() < 5 {
+                                    rb_notes.push(json!({"kind": kind, "ts": ts}));
+                                }
+                            }
+                        } else if same {
+                            rb_ok_invalid += 1
+                        } else {
+                            rb_fail_invalid += 1
+                        }
+                    }
+                    Err(_) => {
+                        if valid {
+                            rb_diff += 1;
+                            if rb_notes.len() < 5 {
+                                rb_notes.push(json!({"kind": kind, "ts": ts, "read": "fails"}));
+                            }
+                        } else {
+                            rb_fail_invalid += 1
+                        }
+                    }
+                }
+            }
+        }
+    }
+    let ev = w.finish();
+    rep.extra.insert("equal_to_model".into(), json!(equal));
+    rep.extra.insert("drift".into(), json!(drift));
+    rep.extra.insert("drift_first".into(), drift_first);
+    rep.extra.insert("predicted_malformed".into(), json!(pred_invalid));
+    rep.extra.insert("malformed_kinds".into(), json!(invalid_kinds));
+    rep.extra.insert("valid_read_back_equal".into(), json!(rb_ok));
+    rep.extra.insert("valid_read_back_differs".into(), json!(rb_diff));
+    rep.extra.insert("valid_read_back_notes".into(), Value::Array(rb_notes));
+    rep.extra.insert("malformed_read_back_fails_or_differs".into(), json!(rb_fail_invalid));
+    rep.extra.insert("malformed_read_back_equal".into(), json!(rb_ok_invalid));
+    rep.extra.insert("streams_logged".into(), json!(ev));
+    rep.extra.insert("streams_path".into(), json!(format!("{out}/estreams.ndjson")));
+    rep.print();
+}
+
+// ------------------------------------------------------------------ dicom_dump as a consumer (Trace_Dump.tla)
+
+/// text dump -> outline: one [indent, [group, element]] per line
+fn text_outline(out: &str) -> Result<Vec<Value>, String> {
+    let mut v = Vec::new();
+    for line in out.lines() {
+        if line.trim().is_empty() {
+            continue;
+        }
+        let indent = line.len() - line.trim_start_matches(' ').len();
+        let t = line.trim_start_matches(' ');
+        let b = t.as_bytes();
+        if b.len() < 11 || b[0] != b'(' || b[5] != b',' || b[10] != b')' {
+            return Err(format!("line does not start with a tag: {line:?}"));
+        }
+        let g = u16::from_str_radix(&t[1..5], 16).map_err(|e| format!("{e}: {line:?}"))?;
+        let e = u16::from_str_radix(&t[6..10], 16).map_err(|e| format!("{e}: {line:?}"))?;
+        v.push(json!([indent, [g, e]]));
+    }
+    Ok(v)
+}
+
+/// DICOM JSON -> tree of tags
+fn json_outline(v: &Value) -> Result<Value, String> {
+    let m = v.as_object().ok_or("data set is not a JSON object")?;
+    let mut out = Vec::new();
+    for (k, e) in m {
+        if k.len() != 8 {
+            return Err(format!("bad attribute key {k}"));
+        }
+        let g = u16::from_str_radix(&k[0..4], 16).map_err(|e| e.to_string())?;
+        let el = u16::from_str_radix(&k[4..8], 16).map_err(|e| e.to_string())?;
+        let mut items = Vec::new();
+        if e["vr"] == "SQ" {
+            if let Some(a) = e.get("Value").and_then(|x| x.as_array()) {
+                for it in a {
+                    items.push(json_outline(it)?);
+                }
+            }
+        }
+        out.push(json!({"tag": [g, el], "items": items}));
+    }
+    Ok(Value::Array(out))
+}
+
+fn run_dump(a: &std::collections::HashMap<String, String>) {
+    use dicom_dump::{ColorMode, DumpFormat, DumpOptions};
+    let cases = read_ndjson(a.get("cases").expect("--cases"));
+    let out = a.get("out").expect("--out");
+    let only_ts = a.get("ts").cloned().unwrap_or_else(|| "EVRLE".to_string());
+    std::fs::create_dir_all(out).unwrap();
+    let mut wp = NdjsonWriter::create(&format!("{out}/dump_property.ndjson"));
+    let mut wm = NdjsonWriter::create(&format!("{out}/dump_model.ndjson"));
+    let mut rep = Report::new();
+    let (mut dumps, mut json_err, mut variants_differ) = (0u64, 0u64, 0u64);
+    let mut json_err_first = Value::Null;
+    for c in &cases {
+        if j_str(&c["ts"]) != only_ts {
+            continue;
+        }
+        rep.cases += 1;
+        let ds = &c["ds"];
+        let obj = if c["mem"].as_bool().unwrap() {
+            build_obj(ds, Form::Plain)
+        } else {
+            match read_obj(&j_bytes(&c["wireK"]), &only_ts) {
+                Ok(o) => o,
+                Err(_) => continue,
+            }
+        };
+        // text, default options
+        let run_text = |opts: &DumpOptions| -> Result<String, String> {
+            match catch(|| {
+                let mut buf: Vec<u8> = Vec::new();
+                opts.dump_object_to(&mut buf, &obj).map(|_| buf).map_err(|e| e.to_string())
+            }) {
+                Err(p) => Err(format!("panic: {p}")),
+                Ok(Err(e)) => Err(format!("err: {e}")),
+                Ok(Ok(b)) => String::from_utf8(b).map_err(|e| format!("err: output is not UTF-8: {e}")),
+            }
+        };
+        let mut base = DumpOptions::new();
+        base.color_mode(ColorMode::Never);
+        dumps += 1;
+        let text = match run_text(&base).and_then(|t| text_outline(&t)) {
+            Ok(o) => o,
+            Err(e) => {
+                let p = if e.starts_with("panic") { "C01" } else { "dump" };
+                rep.mismatch(json!({"prop": p, "fp": format!("dicom_dump text format {} ({})", if e.starts_with("panic") { "panics" } else { "fails" }, shape(ds)), "case": c, "error": e}));
+                for w in [&mut wp, &mut wm] {
+                    w.emit(&json!({"ev": "dump", "level": "x", "ds": ds, "res": e}));
+                }
+                continue;
+            }
+        };
+        // every other option combination must give the same outline
+        let mut same = true;
+        for width in [0u32, 1, 40, 120, 500] {
+            for (ntl, nl) in [(false, false), (true, false), (false, true), (true, true)] {
+                let mut o = DumpOptions::new();
+                o.color_mode(ColorMode::Never).width(width).no_text_limit(ntl).no_limit(nl);
+                dumps += 1;
+                match run_text(&o).and_then(|t| text_outline(&t)) {
+                    Ok(x) if x == text => {}
+                    Ok(_) => same = false,
+                    Err(e) => {
+                        same = false;
+                        if e.starts_with("panic") {
+                            rep.mismatch(json!({"prop": "C01", "fp": format!("dicom_dump text format panics with width {width} ({})", shape(ds)), "case": c, "error": e}));
+                        }
+                    }
+                }
+                // dump_element directly: here the limits really apply
+                dumps += 1;
+                let r = catch(|| {
+                    let mut buf: Vec<u8> = Vec::new();
+                    for e in obj.iter() {
+                        dicom_dump::dump_element(&mut buf, e, width, 0, ntl, nl).map_err(|e| e.to_string())?;
+                    }
+                    Ok::<_, String>(buf)
+                });
+                match r {
+                    Err(p) => {
+                        same = false;
+                        rep.mismatch(json!({"prop": "C01", "fp": format!("dicom_dump::dump_element panics (width {width}, no_text_limit {ntl}, no_limit {nl}; {})", shape(ds)), "case": c, "error": p}));
+                    }
+                    Ok(Err(_)) => same = false,
+                    Ok(Ok(b)) => match String::from_utf8(b).map_err(|e| e.to_string()).and_then(|t| text_outline(&t)) {
+                        Ok(x) if x == text => {}
+                        _ => same = false,
+                    },
+                }
+            }
+        }
+        if !same {
+            variants_differ += 1;
+        }
+        // JSON format
+        let mut jo = DumpOptions::new();
+        jo.format(DumpFormat::Json);
+        dumps += 1;
+        let (jsonok, json) = match catch(|| {
+            let mut buf: Vec<u8> = Vec::new();
+            jo.dump_object_to(&mut buf, &obj).map(|_| buf).map_err(|e| e.to_string())
+        }) {
+            Err(p) => {
+                rep.mismatch(json!({"prop": "C01", "fp": format!("dicom_dump JSON format panics ({})", shape(ds)), "case": c, "error": p}));
+                (false, json!([]))
+            }
+            Ok(Err(e)) => {
+                json_err += 1;
+                if json_err_first.is_null() {
+                    json_err_first = json!({"shape": shape(ds), "error": e, "ds": ds});
+                }
+                (false, json!([]))
+            }
+            Ok(Ok(b)) => match serde_json::from_slice::<Value>(&b).map_err(|e| e.to_string()).and_then(|v| json_outline(&v)) {
+                Ok(o) => (true, o),
+                Err(e) => {
+                    json_err += 1;
+                    if json_err_first.is_null() {
+                        json_err_first = json!({"shape": shape(ds), "error": e, "ds": ds});
+                    }
+                    (false, json!([]))
+                }
+            },
+        };
+        for (w, level) in [(&mut wp, "property"), (&mut wm, "model")] {
+            w.emit(&json!({"ev": "dump", "level": level, "ds": ds, "res": "ok", "text": text, "same": same, "jsonok": jsonok, "json": json}));
+        }
+    }
+    let n1 = wp.finish();
+    wm.finish();
+    rep.extra.insert("objects".into(), json!(rep.cases));
+    rep.extra.insert("dump_calls".into(), json!(dumps));
+    rep.extra.insert("events".into(), json!(n1));
+    rep.extra.insert("json_failures".into(), json!(json_err));
+    rep.extra.insert("json_failure_first".into(), json_err_first);
+    rep.extra.insert("option_variants_differ".into(), json!(variants_differ));
+    rep.extra.insert("property_path".into(), json!(format!("{out}/dump_property.ndjson")));
+    rep.extra.insert("model_path".into(), json!(format!("{out}/dump_model.ndjson")));
+    rep.print();
+}
+
 fn main() {
     quiet_panics();
     let a = args_map();
@@ -1414,6 +1784,8 @@ fn main() {
         Some("prims") => run_prims(&a),
         Some("files") => run_files(&a),
         Some("tokens") => run_tokens(&a),
+        Some("edits") => run_edits(&a),
+        Some("dump") => run_dump(&a),
         _ => {
             eprintln!("usage: drv_dataset replay|random|prims|files ...");
             std::process::exit(2);
